@@ -680,3 +680,7 @@ def check(run, replay=None):
     run.require_counter("dense_images_with_ascent_path_longer_than_height_plus_width", 2)
     for vm in ("negative", "centered", "scaled"):
         run.require_counter("sparse_images_vmap_" + vm, 3)
+
+
+# workloads added in seeding rounds 7-10 (DESIGN.md sections 13.9-13.12)
+LEVEL_TEXT = LEVEL_TEXT + ' Later additions: scans with one-, two- and three-pixel frames; serpentine ridges (ascent paths far longer than height + width); frames that already hold a bool / uint8 / int32 / int64 array under the label name.'
